@@ -34,9 +34,10 @@ Section Tape.
   Definition N : Z := num_frames src slice.
   Definition t0 : transport := transport_new start lr false N.
 
-  (** the guard: the slice lies inside the audio; the iteration bound [fuel] exceeds everything *)
+  (** ANY slice of [usize] values: inside the audio, reaching beyond it, inverted, empty (both sounds clip it to the
+      audio that exists); the iteration bound [fuel] exceeds everything *)
   Definition slice_wf : Prop :=
-    match slice with Some (a, b) => 0 <= a /\ a <= b /\ b <= Z.of_nat (length audio) | None => True end.
+    match slice with Some (a, _) => 0 <= a | None => True end.
   Hypothesis Hslice : slice_wf.
   Hypothesis Hlen : Z.of_nat (length audio) < u64_max.
   Hypothesis Hstart0 : 0 <= start.
@@ -51,17 +52,17 @@ Section Tape.
   Lemma slice_ok_src : slice_ok A src slice.
   Proof.
     unfold slice_ok, src, audio_source. cbn [src_len]. split; [lia|]. split; [exact Hlen|].
-    unfold slice_wf in Hslice. destruct slice as [[a b]|]; [lia | exact I].
+    unfold slice_wf in Hslice. destruct slice as [[a b]|]; [exact Hslice | exact I].
   Qed.
 
-  (** the scheduler's [num_frames]: [end - start] of the slice *)
-  Lemma N_slice : N = match slice with Some (a, b) => b - a | None => Z.of_nat (length audio) end.
-  Proof.
-    unfold N, num_frames, src, audio_source. cbn [src_len]. unfold slice_wf in Hslice.
-    destruct slice as [[a b]|]; [|reflexivity]. unfold sat_sub. lia.
-  Qed.
+  (** the scheduler's [num_frames] is the static sound's: the slice clipped to the audio *)
+  Lemma N_slice : N = match slice with
+                      | Some (a, b) => sat_sub (Z.min b (Z.of_nat (length audio))) a
+                      | None => Z.of_nat (length audio)
+                      end.
+  Proof. reflexivity. Qed.
   Lemma N_nonneg : 0 <= N.
-  Proof. rewrite N_slice. unfold slice_wf in Hslice. destruct slice as [[a b]|]; lia. Qed.
+  Proof. rewrite N_slice. destruct slice as [[a b]|]; unfold sat_sub; lia. Qed.
 
   (** ** the transport along the tape *)
   Definition tnext (t : transport) : transport :=
@@ -146,7 +147,7 @@ Section Tape.
     split; [exact slice_ok_src|]. split; [exact HNB|]. split; [exact HBmax|]. split; [exact Hfuel | apply wf_at].
   Qed.
 
-  Lemma update_at : forall j fp rate pos, nsignneg (p_raw rate) = false ->
+  Lemma update_at : forall j fp rate pos, nltb (p_raw rate) n0 = false ->
     update_position A azero fuel (core_at j fp rate pos) = Ok (core_at (S j) fp rate pos).
   Proof.
     intros j fp rate pos Hr.
@@ -293,12 +294,6 @@ Section Tape.
     intros D dpos dsize dnext dseek derr (Herr & Hnext & Hseek & idle & Hidle) q j Hsl Hn Hinv Hpl.
     unfold q_frame_at_index. rewrite Hsl, Hn.
     pose proof (wf_at j) as (Hp0 & HpB & _). pose proof N_slice as HN. pose proof N_nonneg as HN0.
-    assert (Hd : sub_chk (match slice with Some (_, e) => e | None => N end)
-                         (match slice with Some (st, _) => st | None => 0 end) = Ok N).
-    { unfold slice_wf in Hslice. destruct slice as [[a b]|].
-      - rewrite sub_chk_ok by lia. f_equal. lia.
-      - rewrite sub_chk_ok by lia. f_equal. lia. }
-    rewrite Hd. cbn [obind].
     assert (Hfr : rf_frame (prec (S j)) = if t_pos (tr_at j) <? N then src_get src (off + t_pos (tr_at j)) else azero).
     { cbn [prec rf_frame]. unfold pushedT. unfold pl in Hpl. rewrite Hpl. reflexivity. }
     rewrite Hfr. destruct (Z.geb_spec (t_pos (tr_at j)) N) as [Hge|Hlt].
@@ -306,7 +301,7 @@ Section Tape.
     - destruct (Z.ltb_spec (t_pos (tr_at j)) N); [|lia].
       fold off.
       assert (Hoff : 0 <= off /\ off + t_pos (tr_at j) < Z.of_nat (length audio)).
-      { unfold off. unfold slice_wf in Hslice. destruct slice as [[a b]|]; lia. }
+      { unfold off. unfold slice_wf in Hslice. rewrite HN in Hlt. destruct slice as [[a b]|]; unfold sat_sub in Hlt; lia. }
       rewrite add_chk_ok by lia. cbn [obind].
       set (i := Z.to_nat (off + t_pos (tr_at j))).
       assert (Hi : (i < length audio)%nat) by (unfold i; lia).
@@ -356,7 +351,7 @@ Section Tape.
              else Some (fp, O)
     end.
 
-  Lemma carry_static : forall fl j fp rate pos, nsignneg (p_raw rate) = false ->
+  Lemma carry_static : forall fl j fp rate pos, nltb (p_raw rate) n0 = false ->
     carry A azero fuel fl (core_at j fp rate pos) =
       match fcarry fl fp with Some (fp', k) => Ok (core_at (j + k) fp' rate pos) | None => Hang end.
   Proof.
@@ -457,11 +452,12 @@ Section Tape.
       replace j with (q + (j - q))%nat by lia. rewrite (pl_mono_le _ _ Hq'). reflexivity.
   Qed.
 
-  Definition rate_nonneg (r : T) : Prop := nsignneg r = false /\ nisnan r = false /\ nltb r n0 = false.
-  Lemma nonneg_steps : forall r, rate_nonneg r -> nabs r = r /\ nmax0 r = r.
-  Proof. intros r (H1 & H2 & H3). unfold nabs, nmax0. rewrite H1, H2, H3. split; reflexivity. Qed.
+  (** a non-negative rate: not NaN, not below zero (-0.0 is one) *)
+  Definition rate_nonneg (r : T) : Prop := nisnan r = false /\ nltb r n0 = false.
+  Lemma nonneg_steps : forall r, rate_nonneg r -> nmax0 r = nabs r.
+  Proof. intros r (H2 & H3). unfold nabs, nmax0. rewrite H2, H3. reflexivity. Qed.
 
-  Lemma static_frame_step : forall j fp rate pos inc (ascale : A -> F -> A) (fone : F), nsignneg (p_raw rate) = false ->
+  Lemma static_frame_step : forall j fp rate pos inc (ascale : A -> F -> A) (fone : F), nltb (p_raw rate) n0 = false ->
     frame_step A azero F interp cast ascale fone fuel (core_at j fp rate pos) inc =
       match fcarry fuel (nadd fp inc) with
       | Some (fp', k) => Ok (core_at (j + k) fp' rate pos,
@@ -512,7 +508,7 @@ Section Tape.
   Qed.
 
   Lemma loops_sim : forall k i num dt rate hx hz m fin fp cur px py,
-    nsignneg (p_raw rate) = false -> rates_nonneg_from rate i num k ->
+    nltb (p_raw rate) n0 = false -> rates_nonneg_from rate i num k ->
     Rel hx hz m fin ->
     forall y' raws,
       y_frames_loop A azero F interp cast fuel k i num dt rate (yc hz m fin fp cur py (flag_at (hx + 3)))
@@ -526,12 +522,12 @@ Section Tape.
     - cbn [y_frames_loop] in H. inversion H; subst. exists hx, hz, m, fp. split; [exact HRel|]. split; [reflexivity|]. split; reflexivity.
     - cbn [y_frames_loop frames_loop] in *.
       assert (Hnn : rate_nonneg (rate_at rate i num)) by (apply Hrates; lia).
-      destruct (nonneg_steps _ Hnn) as [Habs Hmax].
+      pose proof (nonneg_steps _ Hnn) as Hmax.
       assert (Hinc : increment_of A (core_at (hx + 3) fp rate px) i num dt
                      = y_increment A (yc hz m fin fp cur py (flag_at (hx + 3))) rate i num dt).
       { unfold increment_of, y_increment. cbn [core_at s_sr s_rate yc y_sr].
         change (param_interpolated T lerp rate (ndiv (nofZ (i + 1)) (nofZ num))) with (rate_at rate i num).
-        rewrite Habs, Hmax. reflexivity. }
+        rewrite Hmax. reflexivity. }
       rewrite Hinc. set (inc := y_increment A _ rate i num dt) in *. clearbody inc.
       rewrite stream_frame_step in H. rewrite (static_frame_step (hx + 3) fp rate px inc _ _ Hr).
       destruct (fcarry fuel (nadd fp inc)) as [[fp1 k1]|]; cbn [obind] in *; [|discriminate].
@@ -599,7 +595,7 @@ Section Tape.
              w_sound := {| z_core := yc hz m fin fp cur py (flag_at (hx + 3)); z_shell := sh |} |} /\
       Rel hx hz m fin /\ mirror_ok sh /\ dinv A audio D dpos dec /\
       (st = Running -> pl (hz + m - 1) = true) /\
-      nsignneg (p_raw (h_rate sh)) = false.
+      nltb (p_raw (h_rate sh)) n0 = false.
 
   (** the rate parameter along a run: it depends on the rate commands and the time steps only.  The property's
       "non-negative playback rate": every value either sound reads is non-negative (not NaN, sign bit clear) *)
@@ -611,7 +607,7 @@ Section Tape.
     | EvProcess len dt i :: r =>
         match param_update powf T lerp rate (nmul dt (nofZ len)) i with
         | Ok (rate', _) =>
-            nsignneg (p_raw rate') = false /\
+            nltb (p_raw rate') n0 = false /\
             (forall k, 0 <= k < len -> rate_nonneg (rate_at rate' k len)) /\ rates_ok rate' r
         | _ => True
         end
@@ -698,7 +694,7 @@ Section Tape.
 
   Lemma process_sim : forall x w len dt i, Inv x w ->
     (forall rate' f, param_update powf T lerp (h_rate (x_shell x)) (nmul dt (nofZ len)) i = Ok (rate', f) ->
-       nsignneg (p_raw rate') = false /\ (forall k, 0 <= k < len -> rate_nonneg (rate_at rate' k len))) ->
+       nltb (p_raw rate') n0 = false /\ (forall k, 0 <= k < len -> rate_nonneg (rate_at rate' k len))) ->
     forall z' oy,
       stream_process powf A azero F interp cast ascale V vinterp identity amp P pinterp panned fuel (w_sound w) len dt i
         = Ok (z', oy, false) ->
@@ -768,7 +764,7 @@ Section Tape.
         destruct (y_run {| w_prod := w_prod w; w_sound := z' |} evs) as [[os s2]| |] eqn:Er; cbn [obind] in H; try discriminate.
         injection H as Hys Hs. apply orb_false_iff in Hs. destruct Hs as [Hs1 Hs2]. subst s1 s2 ys.
         assert (Hstep : forall rate' f, param_update powf T lerp (h_rate (x_shell x)) (nmul dt (nofZ len)) i = Ok (rate', f) ->
-                  nsignneg (p_raw rate') = false /\ (forall k, 0 <= k < len -> rate_nonneg (rate_at rate' k len))).
+                  nltb (p_raw rate') n0 = false /\ (forall k, 0 <= k < len -> rate_nonneg (rate_at rate' k len))).
         { intros rate' f Hpu. rewrite Hpu in Hrates. destruct Hrates as (H1 & H2 & _). split; assumption. }
         destruct (process_sim x w len dt i HInv Hstep _ _ Ep) as (x' & ox & f & Hsx & Ho & HInv' & Hpu).
         rewrite Hsx. cbn [obind]. rewrite Hpu in Hrates. destruct Hrates as (_ & _ & Hrates').
@@ -780,7 +776,7 @@ Section Tape.
   Variable g : settings T V P.
   Hypothesis Hstart_def : start = into_samples (g_start_pos g) sr.
   Hypothesis Hlr_def : lr = option_map (fun r => region_samples r sr N) (g_loop g).
-  Hypothesis Hrate0 : nsignneg (p_raw (param_new (g_rate g) n1)) = false.
+  Hypothesis Hrate0 : nltb (p_raw (param_new (g_rate g) n1)) n0 = false.
 
   Lemma init_inv :
     exists x0 w0,
@@ -807,9 +803,11 @@ Section Tape.
       cbn [core_at s_stopped]. rewrite flag_3. reflexivity. }
     split.
     { unfold stream_new.
-      assert (Hn : match slice with Some (st, e) => sub_chk e st | None => Ok (Z.of_nat (length audio)) end = Ok N).
-      { rewrite N_slice. unfold slice_wf in Hslice. destruct slice as [[a b]|]; [|reflexivity]. rewrite sub_chk_ok by lia. reflexivity. }
-      rewrite Hn. cbn [obind]. rewrite <- Hstart_def, <- Hlr_def. fold t0. reflexivity. }
+      change (match slice with
+              | Some (st, e) => sat_sub (Z.min e (Z.of_nat (length audio))) st
+              | None => Z.of_nat (length audio)
+              end) with N.
+      rewrite <- Hstart_def, <- Hlr_def. fold t0. reflexivity. }
     split; [|split; [reflexivity|]; split; reflexivity].
     exists 0%nat, 0%nat, 1%nat, false, n0, (t_pos t0), px, px, sh0,
            {| ds_dec := dseek d0 (Z.to_nat start); ds_cur := dpos (dseek d0 (Z.to_nat start)); ds_chunk := None |},
@@ -899,9 +897,12 @@ Section Tape.
       stream_new A azero V silence identity P pcenter audio D dpos dseek d0 sr slice g = Ok w0 /\
       stream_new A azero V silence identity P pcenter audio D' dpos' dseek' d0' sr slice g = Ok w0' /\ PInv w0 w0'.
   Proof.
-    assert (Hn : match slice with Some (st, e) => sub_chk e st | None => Ok (Z.of_nat (length audio)) end = Ok N).
-    { rewrite N_slice. unfold slice_wf in Hslice. destruct slice as [[a b]|]; [|reflexivity]. rewrite sub_chk_ok by lia. reflexivity. }
-    eexists _, _. unfold stream_new. rewrite Hn. cbn [obind]. rewrite <- Hstart_def, <- Hlr_def. fold t0.
+    eexists _, _. unfold stream_new.
+    change (match slice with
+            | Some (st, e) => sat_sub (Z.min e (Z.of_nat (length audio))) st
+            | None => Z.of_nat (length audio)
+            end) with N.
+    rewrite <- Hstart_def, <- Hlr_def. fold t0.
     split; [reflexivity|]. split; [reflexivity|].
     split; [reflexivity|]. cbn [w_prod].
     eexists 0%nat, Running, _, _. split; [reflexivity|]. split; [reflexivity|].
